@@ -41,7 +41,7 @@ Proof.
     rewrite str_eqb_refl, app_nil_r, rev_involutive. reflexivity.
 Qed.
 
-Theorem read_first_flatten l : forallb atoms_ok l = true -> read_first (flatten (SList l)) = Some (SList l, O).
+Theorem read_first_flatten l : forallb atoms_ok l = true -> read_first (flatten (SList l)) = Some (SList l, O, []).
 Proof.
   intro H. cbn [flatten read_first]. rewrite str_eqb_refl. f_equal.
   rewrite (open_many l (proj2 (Forall_forall _ _) (fun x _ => open_one x)) H). cbn [read_open].
@@ -53,13 +53,12 @@ Theorem elab_text_print l n : sexp_ok (SList l) = true ->
 Proof.
   intros Hok. unfold elab_text. rewrite (tokenize_print _ Hok). unfold elab_tokens.
   rewrite read_first_flatten by (apply sexp_ok_atoms_ok in Hok; exact Hok).
-  unfold elab_file. destruct (elab_file_ext (SList l)) as [r|]; [|discriminate].
-  destruct (snd r); [destruct (_ <=? _)|cbn]; intro H; inversion H; reflexivity.
+  destruct (elab_file (SList l)) as [r|]; [|discriminate]. cbn. intro H; inversion H; reflexivity.
 Qed.
 
 Theorem elab_text_print_sound l n : sexp_ok (SList l) = true -> supported (SList l) = true ->
-  elab_text (print (SList l)) = Ok n -> denote_file (SList l) n /\ wf_core n.
+  elab_text (print (SList l)) = Ok n -> denote_file (SList l) n /\ wf_file n.
 Proof.
-  intros Hok Hs H. apply elab_text_print in H; auto. split; [now apply elab_file_sound|eapply elab_file_wf_core; eauto].
+  intros Hok Hs H. apply elab_text_print in H; auto. split; [now apply elab_file_sound|eapply elab_file_wf; eauto].
 Qed.
 Print Assumptions elab_text_print_sound.
